@@ -15,7 +15,7 @@ import (
 
 type FaultOp struct {
 	AfterUs int    `json:"after_us"`
-	Kind    string `json:"kind"` // rst | fin | blackhole | stall | crash | restart | refuse | timeout
+	Kind    string `json:"kind"` // rst | fin | blackhole | stall | crash | restart | refuse | timeout | cuths
 	Dir     int    `json:"dir,omitempty"`
 	N       int    `json:"n,omitempty"`
 	DurUs   int    `json:"dur_us,omitempty"`
@@ -96,7 +96,7 @@ func (faultseqScn) Generate(g *simrt.Rng, tier string) any {
 			op.Kind = "restart"
 			down = false
 		default:
-			op.Kind = simrt.Pick(g, "rst", "fin", "blackhole", "stall", "crash", "refuse", "timeout", "rst", "blackhole")
+			op.Kind = simrt.Pick(g, "rst", "fin", "blackhole", "stall", "crash", "refuse", "timeout", "rst", "blackhole", "cuths")
 			if op.Kind == "crash" {
 				down = true
 			}
@@ -131,6 +131,12 @@ func (faultseqScn) Run(t *testing.T, seed uint64, plan any, o RunOpts) *Report {
 			simrt.Logf("fault op %s", op.Kind)
 			switch op.Kind {
 			case "rst":
+				if pr != nil {
+					pr.Reset("faultseq")
+				}
+			case "cuths":
+				// the connection dies and the next N connections are cut inside their handshake
+				net.CutHandshakes(simAddr, op.N)
 				if pr != nil {
 					pr.Reset("faultseq")
 				}
@@ -175,6 +181,7 @@ func (faultseqScn) Run(t *testing.T, seed uint64, plan any, o RunOpts) *Report {
 			hWaitCond("faultseq.join-faults", func() bool { return faultsDone })
 			net.RefuseDials(simAddr, 0)
 			net.TimeoutDials(simAddr, 0)
+			net.CutHandshakes(simAddr, 0)
 			// the last fault may still be working: a stalled or black-holed path ends in a keep-alive
 			// reset after at most 15 s, an in-flight dial takes at most the dial timeout
 			hSleep(16*time.Second + time.Duration(p.Opt.DialTimeoutMs)*time.Millisecond)
